@@ -122,9 +122,11 @@ class StubPool:
 def install(fs):
     """Point every environment boundary at the stubs. Call once per path (cheap)."""
     fakefs.install(R, fs)
-    RecordingSHA1.made = []
-    _Counter.n = 0
-    PyTemp._n = 0
+    if not getattr(fs, '_env_installed', False):      # a second recorder on the same file system continues the id sequence
+        fs._env_installed = True
+        RecordingSHA1.made = []
+        _Counter.n = 0
+        PyTemp._n = 0
     WF.hashlib = types.SimpleNamespace(sha1=RecordingSHA1)
     WF.uuid = types.SimpleNamespace(uuid4=_uuid4)
     wpull.util.datetime_str = lambda: '2020-01-02T03:04:05Z'
